@@ -8,6 +8,8 @@ C20.gate   : in exmod_single_folder every such site is dominated by `proceed`; f
 C20.prov   : the path of every write reachable from exmod is rooted (def-use) at the output
              directory parameters, with a depth abstraction (join +n, dirname -1) that must never go
              above the output directory.
+C20.srcguard : emission into an existing file (which for a package outside site-packages is the source
+             module itself) happens only when no top-level node of that file has the symbol's name.
 """
 
 import ast
@@ -165,6 +167,149 @@ def _gate_truth_table(ctx, esf, assign):
         ),
         line=assign.lineno,
     )
+
+
+def _is_names_of_body(e, modvar, depth=0):
+    """`e` enumerates exactly the `.name` of every top-level node of `modvar` that has one"""
+    if depth > 6:
+        return False
+    if isinstance(e, ast.Call) and norm(e.func) in ("set", "frozenset", "list", "tuple", "iter") and len(e.args) == 1:
+        return _is_names_of_body(e.args[0], modvar, depth + 1)
+    if isinstance(e, ast.Call) and norm(e.func) == "map" and len(e.args) == 2:
+        fn, src = e.args
+        getter = (
+            isinstance(fn, ast.Call) and norm(fn.func).rpartition(".")[2] == "attrgetter" and len(fn.args) == 1 and isinstance(fn.args[0], ast.Constant) and fn.args[0].value == "name"
+        ) or (isinstance(fn, ast.Lambda) and len(fn.args.args) == 1 and norm(fn.body) == fn.args.args[0].arg + ".name")
+        return bool(getter) and _is_named_nodes(src, modvar, depth + 1)
+    if isinstance(e, (ast.GeneratorExp, ast.ListComp, ast.SetComp)) and len(e.generators) == 1:
+        g = e.generators[0]
+        if not isinstance(g.target, ast.Name) or norm(e.elt) != g.target.id + ".name":
+            return False
+        if not all(_is_hasattr_name(i, g.target.id) for i in g.ifs):
+            return False
+        return _is_named_nodes(g.iter, modvar, depth + 1) or norm(g.iter) == modvar + ".body" and bool(g.ifs)
+    return False
+
+
+def _is_hasattr_name(test, var):
+    return isinstance(test, ast.Call) and norm(test.func) == "hasattr" and len(test.args) == 2 and norm(test.args[0]) == var and isinstance(test.args[1], ast.Constant) and test.args[1].value == "name"
+
+
+def _is_named_nodes(e, modvar, depth=0):
+    """`e` enumerates every top-level node of `modvar` that has a `.name`"""
+    if isinstance(e, ast.Call) and norm(e.func) == "filter" and len(e.args) == 2 and norm(e.args[1]) == modvar + ".body":
+        fn = e.args[0]
+        if isinstance(fn, ast.Call) and norm(fn.func).rpartition(".")[2] == "rpartial" and len(fn.args) == 2 and norm(fn.args[0]) == "hasattr":
+            return isinstance(fn.args[1], ast.Constant) and fn.args[1].value == "name"
+        if isinstance(fn, ast.Lambda) and len(fn.args.args) == 1:
+            return _is_hasattr_name(fn.body, fn.args.args[0].arg)
+    return False
+
+
+def _exists_node_named(e, namevar, modvar):
+    """
+    True  : `e` is recognisably  "some top-level node of modvar is named namevar"
+    False : `e` does not even look at the names of modvar's top-level nodes
+    None  : it does, in a shape this recogniser does not know
+    """
+    ok = False
+    if isinstance(e, ast.Call) and norm(e.func) == "any" and len(e.args) == 1:
+        a = e.args[0]
+        if isinstance(a, ast.Call) and norm(a.func) in ("filter", "map") and len(a.args) == 2:
+            fn, src = a.args
+            eq_name = (
+                isinstance(fn, ast.Call) and norm(fn.func).rpartition(".")[2] == "partial" and len(fn.args) == 2 and norm(fn.args[0]).rpartition(".")[2] == "eq" and norm(fn.args[1]) == namevar
+            ) or norm(fn) == namevar + ".__eq__"
+            ok = bool(eq_name) and _is_names_of_body(src, modvar)
+        elif isinstance(a, ast.GeneratorExp) and len(a.generators) == 1 and isinstance(a.elt, ast.Compare) and len(a.elt.ops) == 1 and isinstance(a.elt.ops[0], ast.Eq):
+            g = a.generators[0]
+            if isinstance(g.target, ast.Name):
+                sides = {norm(a.elt.left), norm(a.elt.comparators[0])}
+                ok = sides == {namevar, g.target.id + ".name"} and all(_is_hasattr_name(i, g.target.id) for i in g.ifs) and (
+                    _is_named_nodes(g.iter, modvar) or (norm(g.iter) == modvar + ".body" and bool(g.ifs))
+                )
+    elif isinstance(e, ast.Compare) and len(e.ops) == 1 and isinstance(e.ops[0], ast.In) and norm(e.left) == namevar:
+        ok = _is_names_of_body(e.comparators[0], modvar)
+    if ok:
+        return True
+    looks = any(norm(x) == modvar + ".body" for x in ast.walk(e)) and any(
+        (isinstance(x, ast.Attribute) and x.attr == "name") or (isinstance(x, ast.Constant) and x.value == "name") for x in ast.walk(e)
+    )
+    return None if looks else False
+
+
+def _srcguard(ctx, index):
+    """
+    C20.srcguard. For a package that is NOT under site-packages `relative_filename` leaves the absolute
+    path of the source module, and path.join(output_directory, <absolute>) is that absolute path: the file
+    emit_file_on_hierarchy is about to emit into IS the source module. What keeps "the source package is
+    not modified" true is that emission is skipped when the existing file already has a top-level node of
+    the symbol's name (always the case for the module the symbol was read from). Decided here:
+      (1) the call that writes (_emit_symbol) is dominated by `not symbol_in_file`;
+      (2) every definition of symbol_in_file is `isfile(emit_filename)` (no file, nothing to modify) or
+          recognisably "some top-level node of the existing file is named `name`".
+    """
+    f = index.func("cdd.compound.exmod_utils.emit_file_on_hierarchy")
+    calls = [n for n in iter_own(f.node) if isinstance(n, ast.Call) and index.callee(f.mod, n, f) == "cdd.compound.exmod_utils._emit_symbol"]
+    ctx.need(len(calls) >= 1, "emit_file_on_hierarchy no longer calls _emit_symbol")
+    facts_at = {}
+    GuardWalker(on_expr=lambda n, facts: facts_at.__setitem__(id(n), facts)).walk_function(f.node)
+    flags = set()
+    for c in calls:
+        facts = facts_at.get(id(c))
+        ctx.need(facts is not None, "_emit_symbol call not visited by the walker")
+        falsy = sorted(k for k, v in facts.items() if v is False and isinstance(k, str) and k.isidentifier())
+        # the flag: a local that is false here and is the name passed neither as dry_run nor as a parameter
+        cand = [k for k in falsy if k not in f.params]
+        ok = bool(cand)
+        ctx.ob(
+            "C20.srcguard",
+            f,
+            c if not ok else "_emit_symbol(...) only when not {}".format(" / ".join(cand)),
+            ok,
+            "" if ok else "_emit_symbol is reached without a test that the symbol is not already in the target file: for a "
+            "package outside site-packages the target file is the source module itself, which is then rewritten",
+            line=c.lineno,
+        )
+        flags.update(cand)
+    n_defs = 0
+    for flag in sorted(flags):
+        for n in iter_own(f.node):
+            if isinstance(n, (ast.Assign, ast.AnnAssign)) and n.value is not None:
+                tg = n.targets if isinstance(n, ast.Assign) else [n.target]
+                if not any(isinstance(t, ast.Name) and t.id == flag for t in tg):
+                    continue
+                v = n.value
+                n_defs += 1
+                if isinstance(v, ast.Call) and norm(v.func).rpartition(".")[2] == "isfile" and len(v.args) == 1:
+                    ctx.ob("C20.srcguard", f, n, True, line=n.lineno)
+                    continue
+                modvars = sorted({x.value.id for x in ast.walk(v) if isinstance(x, ast.Attribute) and x.attr == "body" and isinstance(x.value, ast.Name)})
+                namevar = "name"
+                r = None
+                for mv in modvars or ["existent_mod"]:
+                    r = _exists_node_named(v, namevar, mv)
+                    if r:
+                        break
+                ctx.need(
+                    r is not None,
+                    "the 'symbol already in file' test of emit_file_on_hierarchy looks at the names of the existing file's "
+                    "top-level nodes in a shape the recogniser does not know: {}".format(short(v, 120)),
+                )
+                ctx.ob(
+                    "C20.srcguard",
+                    f,
+                    n,
+                    bool(r),
+                    ""
+                    if r
+                    else "`{}` is no longer decided by the names of the existing file's top-level nodes: a source module that "
+                    "defines the symbol can be judged not to contain it and is then overwritten with generated code "
+                    "(package outside site-packages: the emit target is the source file)".format(flag),
+                    line=n.lineno,
+                )
+    ctx.need(n_defs >= 2, "fewer than two definitions of the already-in-file flag found")
+    ctx.count("srcguard_flag_definitions", n_defs)
 
 
 def run(ctx):
@@ -367,6 +512,7 @@ def run(ctx):
     from . import c20_prov
 
     ctx.section(c20_prov.run, ctx, index, graph, effects, wm, reach)
+    ctx.section(_srcguard, ctx, index)
     # note on find_spec
     fmf = index.funcs.get("cdd.shared.pure_utils.find_module_filepath")
     if fmf is not None and fmf.qual in reach:
